@@ -75,6 +75,34 @@ func (r *Reader) ReadFlag() bool {
 	return bit == 1
 }
 
+// ReadExpGolomb reads one unsigned exponential Golomb code. Returns 0 if error now or previously.
+func (r *Reader) ReadExpGolomb() uint {
+	if r.err != nil {
+		return 0
+	}
+	leadingZeroBits := 0
+	for {
+		b := r.Read(1)
+		if r.err != nil {
+			return 0
+		}
+		if b == 1 {
+			break
+		}
+		leadingZeroBits++
+		if leadingZeroBits > 32 {
+			r.err = fmt.Errorf("exp-golomb code with more than 32 leading zero bits")
+			return 0
+		}
+	}
+	var res uint = (1 << leadingZeroBits) - 1
+	endBits := r.Read(leadingZeroBits)
+	if r.err != nil {
+		return 0
+	}
+	return res + endBits
+}
+
 // ReadRemainingBytes reads remaining bytes if byte-aligned. Returns nil if error now or previously.
 func (r *Reader) ReadRemainingBytes() []byte {
 	if r.err != nil {
